@@ -8,6 +8,33 @@ import ElfioVerif.Spec.Dyn
 import ElfioVerif.Props.C07
 namespace ElfioVerif
 open Gen
+
+/-! ### bridging lemmas: the generated expressions the model calls for the source tie are the expressions
+the proofs reason about -/
+namespace DynTie
+open DynAcc
+theorem fabAt_eq (c : Bool) (k : Nat) : fabAt c k = fabricated := by
+  cases c <;> (rcases k with _ | _ | k) <;> simp only [fabAt] <;> decide
+theorem rec_off32 (o : BitVec 64) : dyn32_get_rec_off o = o := rfl
+theorem rec_off64 (o : BitVec 64) : dyn64_get_rec_off o = o := rfl
+/-- `if ( nullptr == result ) { str.clear(); return false; } str = result;` -/
+theorem getEntry_str (r : Option Bytes) (a : DynAcc) (tag value : BitVec 64) :
+    (if dyn_get_string_null r.isNone = true then (pure (a, GetRes.nostr tag value) : M (DynAcc × GetRes))
+     else pure (a, GetRes.ok tag value (r.getD [])))
+      = (match r with
+         | none => pure (a, GetRes.nostr tag value)
+         | some s => pure (a, GetRes.ok tag value s)) := by
+  cases r <;> rfl
+theorem i_init : dyn_num_i_init = 0 := by decide
+theorem tag_init : dyn_num_tag_init = BitVec.ofNat 64 DT_NULL := by decide
+theorem i_incr (i : BitVec 64) : dyn_num_i_incr i = i + 1 := rfl
+end DynTie
+
+/-- rewrite the tie expressions of the dynamic accessor model into the forms the proofs were written for -/
+macro "dyn_tie" loc:(Lean.Parser.Tactic.location)? : tactic =>
+  `(tactic| try simp only [DynTie.fabAt_eq, DynTie.rec_off32, DynTie.rec_off64, DynTie.getEntry_str, DynTie.i_init,
+      DynTie.tag_init, DynTie.i_incr] $[$loc]?)
+
 namespace C12
 
 theorem beq_lit (t : BitVec 64) (n : Nat) (h : n < 18446744073709551616) :
@@ -423,7 +450,7 @@ theorem setSize_frame (b : SecBuf) (v : BitVec 64) :
 theorem insertFinish_frame (b : SecBuf) (ns n : BitVec 64) :
     (b.insertFinish ns n).entSize = b.entSize ∧ (b.insertFinish ns n).link = b.link := by
   obtain ⟨h1, h2⟩ := setSize_frame b ns
-  unfold SecBuf.insertFinish
+  rw [SecBuf.insertFinish_hand]
   dsimp only
   split <;> exact ⟨h1, h2⟩
 
@@ -509,6 +536,7 @@ theorem rawEntry32 (e : Enc) (sec : SecBuf) (hR : sec.Resident) (hent : sec.entS
     simp only [sizeof_Elf32_Dyn]
     bvn; omega
   unfold rawEntryOn
+  dyn_tie
   simp only [↓reduceIte, g1, g2, g3, g4, Bool.false_eq_true, ho]
   -- the two field reads
   have r1 := resident_read hR "dyn/get:d_tag" (idx.toNat * 8 + 0) 4 (by omega) (by omega)
@@ -573,6 +601,7 @@ theorem rawEntry64 (e : Enc) (sec : SecBuf) (hR : sec.Resident) (hent : sec.entS
     simp only [sizeof_Elf64_Dyn]
     bvn; omega
   unfold rawEntryOn
+  dyn_tie
   simp only [↓reduceIte, g1, g2, g3, g4, Bool.false_eq_true, ho]
   -- the two field reads
   have r1 := resident_read hR "dyn/get:d_tag" (idx.toNat * 16 + 0) 8 (by omega) (by omega)
